@@ -250,6 +250,14 @@ def cases(rng, n_extra):
     add("make-ok", "n := oi(4); s := make([]int64, n, n+1); println(len(s), cap(s))")
     add("make-neg8", "n := oi8(-3); s := make([]byte, n); println(len(s))")
     add("make-chan-neg", "n := oi(-1); c := make(chan int, n); println(cap(c))")
+    for (t, f) in (("int8", "oi8"), ("int16", "oi16"), ("int32", "oi32"), ("int64", "oi64")):
+        add("make-chan-neg-narrow", "n := %s(-1); c := make(chan int, n); println(cap(c))" % f)
+        add("make-chan-ok-narrow", "n := %s(3); c := make(chan int, n); println(cap(c))" % f)
+        add("make-neg-narrow", "n := %s(-2); s := make([]int32, n); println(len(s))" % f)
+        add("make-neg-narrow", "n := %s(-2); s := make([]int32, 0, n); println(cap(s))" % f)
+        add("make-map-neg-hint", "n := %s(-2); m := make(map[int]int, n); m[1] = 2; println(len(m))" % f)
+    for (t, f, v) in (("uint8", "ou8", 200), ("uint16", "ou16", 40000)):
+        add("make-chan-ok-narrow", "n := %s(%d); c := make(chan int, n); println(cap(c))" % (f, v))
     # ---- slice to array (pointer) conversion
     add("s2a-short", "s := mk(3); a := [4]int32(s); println(a[0])")
     add("s2a-short", "s := mk(3); a := (*[4]int32)(s); println(a[0])")
